@@ -22,6 +22,9 @@ def directed():
         mk(0.25, 0.1, 0.0, [("func", [Y(), Y(), Y(), Y()])]),                                             # limit below one tock
         mk(0.25, 0.0, 0.0, [("func", [Y(), Y(), R("none")])]),                                            # limit 0 = no limit
         mk(0.1, 0.3, 0.1, [("func", [Y(), Y(), Y(), Y(), Y(), Y()])]),                                     # non-dyadic boundary
+        dict(mk(0.25, 0.5, 0.0, [("doer", [Y(), Y(), Y(), Y(), Y(), Y()])]), ctor=True),                     # doers given at construction
+        dict(mk(1.0, None, 0.0, [("doer", [Y(), Y(), Y(), R()])]), ctor=True, again=[{"limit": 1.5, "tyme": 0.0}]),  # complete, then limit-cut rerun
+        dict(mk(0.25, 0.5, 0.0, [("func", [Y(), Y(), Y(), Y(), R("false")])]), again=[{"limit": None, "tyme": None}, {"limit": 5.0, "tyme": 3.0}]),
     ]
 
 
@@ -32,6 +35,12 @@ def generate(rng, tier):
         p = sc.gen_static(rng, n_leaves=rng.randint(1, 5), nest_depth=rng.choice([0, 0, 2]), faults=False,
                           tocks=rng.choice(["any", "dyadic"]), limit_p=0.7)
         out.append(p)
+    # histories: several runs on one Doist (doers given at construction or to the first do(), then do()
+    # again with/without a new limit and tyme)
+    for _ in range(250 * n):
+        p = sc.gen_static(rng, n_leaves=rng.randint(1, 4), nest_depth=rng.choice([0, 0, 1]), faults=False,
+                          tocks="dyadic", limit_p=0.6)
+        out.append(sc.add_reruns(rng, p))
     return out
 
 
@@ -51,13 +60,39 @@ def _returned(case, obs):
     return out
 
 
+def _oracle_history(case, obs):
+    """Several runs on one Doist: after the last run doist.done is True iff no root doer was force-closed in
+    that run; a doer's done is True only if its last lifecycle ended by a truthy return."""
+    if obs["raised"] != "none":
+        return f"do() raised: {obs['raised']}"
+    tr = obs["trace"]
+    ends = [p for p, (k, _, _) in enumerate(tr) if k in ("DoReturn", "DoRaise")]
+    if len(ends) != 1 + len(case["again"]):
+        return f"expected {1 + len(case['again'])} runs, saw {len(ends)}"
+    last = tr[(ends[-2] + 1) if len(ends) > 1 else 0:ends[-1]]
+    ceased = [i for k, i, _ in last if k == "Cease"]
+    dones = dict((i, d) for i, d in obs["dones"])
+    if bool(dones[0]) != (not ceased):
+        return f"after the last of {len(ends)} runs doist.done = {dones[0]} but force-closed doers in that run = {ceased}"
+    if dones[0] is None:
+        return "doist.done is None after a run"
+    for i in ceased:
+        if dones.get(i) is True:
+            return f"doer {i} was force-closed in the last run but its done is True"
+    return None
+
+
 def oracle(case, obs):
+    if case.get("again"):
+        return _oracle_history(case, obs)
     if obs["raised"] != "none":
         return f"do() raised: {obs['raised']}"
     tr = obs["trace"]
     tock, start = case["tock"], case["tyme"]
     final = sc.fl(obs["tyme"])
     doist_done = dict((i, d) for i, d in obs["dones"])[0]
+    if doist_done is None:
+        return "doist.done is None after a run (must be False or True)"
     limit = abs(case["limit"]) if case["limit"] else None
     # cycle end tymes
     ends, t = [], start
